@@ -1,6 +1,7 @@
 (* C04 - Control and unidirectional stream rules are enforced with the right error. *)
-From H3V Require Import Base.Bytes Gen.GenCodes Gen.GenStreamTypes Spec.RFC9000 Spec.FrameVocab Spec.Frames Spec.UniStreams
-  Model.Varint Model.FrameStream Model.AcceptRecv Model.ConnInner Proofs.AcceptRecvProofs Proofs.UniStreamsProofs.
+From H3V Require Import Base.Bytes Gen.GenCodes Gen.GenStreamTypes Spec.RFC9000 Spec.FrameVocab Spec.Frames Spec.FrameTrace
+  Spec.UniStreams Model.Varint Model.FrameDec Model.FrameStream Model.AcceptRecv Model.ConnInner
+  Proofs.FramesProofs Proofs.AcceptRecvProofs Proofs.UniStreamsProofs Proofs.UniStreamsBytes.
 
 (* ---- tie to the source: facts regenerated from /repo on every run ---- *)
 (* the code used at every error site of poll_accept_recv / poll_control / process_goaway / the role filters is the
@@ -78,17 +79,21 @@ Theorem C04_control_automaton :
     step_outcome role st c c' res.
 Proof. exact next_control_spec. Qed.
 
-(* ---- T3 exactly once, over all histories (relative to the frame layer) ----
-   FULL STATEMENT WANTED: the frames acted upon equal the classified frame list of the control stream's BYTES up to
-   the first error.  PROVED HERE: for every history (any arrival order and chunking of any number of streams,
-   FIN/RESET anywhere, any credit grants and write budgets, polls anywhere), either role, grease on or off, the
-   frames acted upon are - in order, each exactly once - the frames the rule table accepts among the frames
-   FrameStream::poll_next handed out for the control stream; if the table refuses one the connection failed with one
-   of its codes; any other failure comes from a stream-level site with that site's code (second critical stream,
-   control stream reset / closed / truncated, a frame-layer error).
-   MISSING for the full statement: the composition with C02's refinement theorem (the frames poll_next hands out =
-   the RFC 7.1 segmentation of the flat bytes), and the premise excludes the runs in which the model's interval
-   arithmetic for fastrand-dependent write lengths is indeterminate (RIndet; never produced by the generators). *)
+(* ---- T3 exactly once, over all histories ----
+   FULL STATEMENT: the frames acted upon equal the classified frame list of the control stream's BYTES up to the
+   first error.  It is proved in two halves that compose:
+   (a) C04_exactly_once_partial - for every history (any arrival order and chunking of any number of streams,
+       FIN/RESET anywhere, any credit grants and write budgets, polls anywhere), either role, grease on or off,
+       the frames acted upon are - in order, each exactly once - the frames the rule table accepts among the
+       frames FrameStream::poll_next handed out for the control stream (`c_taken`); if the table refuses one
+       the connection failed with one of its codes; any other failure comes from a stream-level site with that
+       site's code (second critical stream, control stream reset / closed / truncated, a frame-layer error);
+   (b) C04_control_frames_are_bytes - those frames are, in order, the first frames of the RFC 9114 7.1
+       segmentation (Spec/Frames.v, via C02's refinement theorem) of the bytes the peer sent on that stream after
+       its type, with C02's guarantees on final results and on "nothing awaited forever".
+   `_partial` because (a) excludes the runs in which the model's interval arithmetic for the fastrand-dependent
+   write lengths is indeterminate (RIndet; the generators never go there) and because the two halves are not
+   folded into one statement about `uni_spec`. *)
 Theorem C04_exactly_once_partial :
   forall role grease wt credit dflt h,
     let d := run_history h (new_drv role grease wt credit dflt) in
@@ -111,6 +116,57 @@ Theorem C04_frame_survives_grease :
     exists c1, grease_only c c1 /\ ((r = PReady f /\ c' = log_handed c1 f) \/ (r = PIndet /\ c' = c1)).
 Proof. exact after_frame_spec. Qed.
 
+(* (b) the control stream against the bytes: C02's refinement applied to the run of the FrameStream model that the
+   driver performs on the claimed control stream (claimed with whatever was already buffered / queued) *)
+Theorem C04_control_frames_are_bytes :
+  forall role grease wt credit dflt h, whist_ok h ->
+    let d := run_history h (new_drv role grease wt credit dflt) in
+    let c := conn_of d in
+    let x := sent_of h in
+    match c_control c with
+    | None => c_taken c = []
+    | Some (id, _) =>
+        exists rest obs,
+          uni_header (sn_flat x id) = Some (ST_CONTROL, None, rest) /\
+          toks_of obs = map TFrame (c_taken c) /\
+          refines obs (frame_outcome settings_verdict rest (sn_end x id)) (sn_end x id) (settled (c_trace c)) /\
+          (forall z, c_cause c = Some z -> cause_last z obs)
+    end.
+Proof. exact control_stream_bytes. Qed.
+
+(* ---- T1 / T2, the part about stream types, against the bytes ----
+   For every history in which no stream id is announced twice: every STOP_SENDING h3 issued is
+   STOP_SENDING(H3_STREAM_CREATION_ERROR) on an announced stream whose delivered bytes start with a complete type
+   varint outside {control, push, encoder, decoder, WebTransport-uni}, at most one per stream; a failure "second
+   control / encoder / decoder stream" happens only if two distinct announced streams carry that type; the stream
+   header reader never fails the connection (no H3_INTERNAL_ERROR). *)
+Theorem C04_stream_types :
+  forall role grease wt credit dflt h, whist_ok h ->
+    let d := run_history h (new_drv role grease wt credit dflt) in
+    let x := sent_of h in
+    let c := conn_of d in
+    let w := world_of d in
+    (forall id code, In (id, code) (l_stops (w_log w)) ->
+       code = E_STREAM_CREATION /\ In id (sn_ann x) /\ exists ty, hdr_type x id = Some ty /\ unknown_type ty) /\
+    NoDup (map fst (l_stops (w_log w))) /\
+    (c_cause c = Some CzTwoControl -> two_of x ST_CONTROL) /\
+    (c_cause c = Some CzTwoEncoder -> two_of x ST_QPACK_ENCODER) /\
+    (c_cause c = Some CzTwoDecoder -> two_of x ST_QPACK_DECODER) /\
+    c_cause c <> Some CzHeaderInternal.
+Proof.
+  intros role grease wt credit dflt h Hh d x c w.
+  destruct (stream_types_bytes role grease wt credit dflt h Hh) as [F1 F2 F3 F4 F5 F6]. auto 10.
+Qed.
+
+(* after poll_accept_recv has looked at the pending streams without failing, every stream still pending has an
+   incomplete header and has not ended: streams with a complete header have been classified (unknown ones refused),
+   streams closed or reset early have been dropped silently *)
+Theorem C04_pending_streams_settled :
+  forall wt x c w wr r c' w' wr',
+    poll_accept_recv wt (c, w, wr) = (r, (c', w', wr')) -> good c w x -> c_err c' = None ->
+    forall id a, In (id, a) (c_pending c') -> uni_header (sn_flat x id) = None /\ sn_end x id = Open.
+Proof. exact polled_streams_settled. Qed.
+
 (* ---- non-vacuity ---- *)
 (* push id 5 as a two-byte varint, one byte per chunk, a poll after each *)
 Example C04_header_reader_inhabited :
@@ -127,6 +183,14 @@ Example C04_exactly_once_inhabited :
                        (new_drv RClient true false 3 None) in
   c_acted (conn_of d) = [ASettings [51; 1]; AGoaway 0] /\ c_closing (conn_of d) = true /\ d_res d = RPending.
 Proof. vm_compute. repeat split; reflexivity. Qed.
+(* that history is well formed, and the bytes-level theorem applies to it *)
+Example C04_bytes_inhabited :
+  whist_ok [EPoll; ENewUni 3; EArrive 3 (Chunk [0; 4; 2; 51; 1; 7; 1; 0]); EPoll].
+Proof.
+  split.
+  - repeat constructor; try discriminate; vm_compute; intuition discriminate.
+  - vm_compute. repeat constructor; intros [].
+Qed.
 (* server: a second control stream *)
 Example C04_second_control_inhabited :
   d_res (run_history [EPoll; ENewUni 2; EArrive 2 (Chunk [0; 4; 0]); ENewUni 6; EArrive 6 (Chunk [0]); EPoll]
@@ -140,3 +204,6 @@ Print Assumptions C04_poll_type_one_call.
 Print Assumptions C04_control_automaton.
 Print Assumptions C04_exactly_once_partial.
 Print Assumptions C04_frame_survives_grease.
+Print Assumptions C04_control_frames_are_bytes.
+Print Assumptions C04_stream_types.
+Print Assumptions C04_pending_streams_settled.
